@@ -36,7 +36,14 @@ def gen_case(rng, params, idx):
     kinds = {"static": ("leaf", "leaf", "raise"),
              "deleg": ("leaf", "next", "next", "fnext", "rec", "nextalt"),
              "dep": ("leaf", "next", "fnext", "rec", "nextalt")}[flavour]
-    spec = gen.gen_program(rng, dep=0.3 if flavour == "dep" else 0.0, kinds=kinds, kw=0.15 if flavour == "static" else 0.0)
+    hier, extras = None, ("MyInt", "int")
+    if rng.random() < 0.3:
+        # classes that are *virtual* subclasses of registered ABCs / protocols: their table entries differ from
+        # their base classes' entries although they define nothing themselves
+        hier = gen.gen_hierarchy(rng, rng.randint(3, 6), attrs=True)
+        extras = ("MyInt", "int", "HasFly", "Shape", "Hook", "HasFly", "Shape")
+    spec = gen.gen_program(rng, dep=0.3 if flavour == "dep" else 0.0, kinds=kinds, kw=0.15 if flavour == "static" else 0.0,
+                           hier=hier, extras=extras)
     vals = gen.values_for(spec["hier"])
     if flavour != "dep":
         vals = [v for v in vals if v[0] == "i" or v in (["v", 1], ["mi", 1], ["v", "a"], ["v", None])]
